@@ -12,6 +12,7 @@ func init() { register("C09", checkC09) }
 
 func checkC09(c *Ctx) {
 	r := c.R
+	r.Rule("R08.6", "(shared with C08) no history in the destination wrappers: the package's writer types keep no per-record state between Writes (a carried-over tail makes a record depend on the previous chunk)")
 	r.Rule("R09.1", "pooled state is re-initialised: for every field of the pooled PrintCtx and every output mode (branches on the two mode bits pruned), no path of a print session (from taking the object out of the pool to the Write) can read the field before this session has definitely written it; exceptions are justified one by one by their own checked invariant (buf truncated by set, off only ever stored 0 on the print path, constructor constants never stored again, prefix saved and restored, cachedSource extracted before read)")
 	r.Rule("R09.2", "no other carry-over: nothing on the print path stores to a package-level variable or calls a mutating method on a package-level object, except the two pools and the atomic size hint, whose value flows only into the capacity of a fresh slice")
 	r.Rule("R02.6", "(shared with C02) the pooled formatting buffer belongs to one record at a time: it goes back to the pool only after the Write that hands its bytes to the destination, and neither it nor the bytes taken from it are used afterwards")
@@ -32,7 +33,9 @@ func checkC09(c *Ctx) {
 			continue
 		}
 		c09Pooled(c, p, m, "R09.1", feasibleModes)
+		allFieldsOnEveryPath(c, p, "R09.1", "Source", "Extract")
 		countersBalanced(c, p, m, "R09.1")
+		wrappersStateless(c, p, "R08.6")
 		c09Globals(c, p, m)
 		c09Capacity(c, p, m)
 		c08Pools(c, p, m)
